@@ -70,7 +70,7 @@ def kraus_completeness(cname):
         tot, nk = v
 
         def rp(model):
-            fr = model.get("free", {})
+            fr = model.get("vars", {})
             vals = [fr.get(n, 0.5) for n in names]
             return _num_kraus(cname, vals)
 
@@ -206,7 +206,7 @@ def circuit_work(cname):
         N = 2 ** len(W)
 
         def rp(model):
-            fr = model.get("free", {})
+            fr = model.get("vars", {})
             angles = [model["params"].get("a", 0.3), model["params"].get("b", -0.7)]
             strengths = [fr.get("s0", 0.3), fr.get("s1", 0.2)]
             ok, obs = _num_circuit(cname, angles, strengths)
@@ -246,7 +246,7 @@ def batch_work(cname):
         N = 2 ** len(W)
 
         def rp(model):
-            fr = model.get("free", {})
+            fr = model.get("vars", {})
             a1, a2, g = model["params"].get("a", 0.3), model["params"].get("b", -0.7), model["params"].get("g", 1.1)
             strengths = [fr.get("s0", 0.3), fr.get("s1", 0.2)]
             ops, mps, W2 = circuits()[cname]([np.array([a1, a2]), g], strengths)
